@@ -213,6 +213,9 @@ class Engine:
         if getattr(st, 'qfacts', None) and hasattr(self, 'instantiate'):
             path += self.instantiate(st, goal)
         ob = Ob(full if n == 0 else '%s~path%d' % (full, n + 1), path, goal, function=self.qual, kind=kind, meta=dict(meta or {}, base=full))
+        if getattr(st, 'qfacts', None) and hasattr(self, 'refine'):
+            self._refine_states = getattr(self, '_refine_states', {})
+            self._refine_states[id(ob)] = st.fork()       # for model-based refinement of a `sat` answer (pv/vc/arrays.py)
         self.obligations.append(ob)
 
     def note(self, msg):
